@@ -16,16 +16,30 @@ package commonmark
 
 //@ -- Extract never replaces an existing definition (first definition wins), never stores the empty label, and
 //@ -- stores under the label node's normalised reference the texts of the destination and title children
+//@ spec NChildren(b *Block) int = len(b.blockChildren) > 0 ? len(b.blockChildren) : len(b.inlineChildren)
+//@ spec ChildPtr(b *Block, i int) int = len(b.blockChildren) > 0 ? b.blockChildren[i] : b.inlineChildren[i]
+
 //@ func ReferenceMap.Extract
 //@   requires m != nil
 //@   modifies everything
-//@   havoccall (*Inline).Text, (*Inline).LinkReference
+//@   havoccall (*Inline).Text, (*Inline).LinkReference keeps map:ReferenceMap, elems:Node, Block.kind, Block.blockChildren, Block.inlineChildren
 //@   site mapupdate: requires[map] $map == m
 //@   site mapupdate: requires[first] !haskey(m, $key)
 //@   site mapupdate: requires[nonempty] len($key) > 0
 //@   site mapupdate: requires[label] seqvalof($key) == seqvalof(label)
 //@   loop 0: invariant[m] m != nil && fresh(stack)
-//@   loop 1: invariant[m] m != nil && fresh(stack) && !isnil(block) && i < (len(block.blockChildren) > 0 ? len(block.blockChildren) : len(block.inlineChildren))
+//@   -- source order (explicit-stack step contract, DESIGN 7.12/7.18 and lemma L-DFS): each iteration pops the top of the
+//@   -- stack, leaves the rest of the stack alone, and pushes the children of a non-definition block in reverse, so
+//@   -- blocks are examined in document order
+//@   loop 0: step[pop] len(prev(stack)) >= 1 && curr == prev(stack[len(stack) - 1])
+//@   loop 0: step[rest] len(stack) >= len(prev(stack)) - 1 && (forall k in [0, len(prev(stack)) - 1): stack[k] == prev(stack[k]))
+//@   loop 0: step[children] (isnil(block) || block.kind == LinkReferenceDefinitionKind) ? len(stack) == len(prev(stack)) - 1
+//@       : (len(stack) == len(prev(stack)) - 1 + NChildren(block)
+//@          && (forall j in [0, NChildren(block)): stack[len(prev(stack)) - 1 + j].ptr == ChildPtr(block, NChildren(block) - 1 - j)))
+//@   loop 1: invariant[m] m != nil && fresh(stack) && !isnil(block) && -1 <= i && i < NChildren(block) && block.kind != LinkReferenceDefinitionKind
+//@   loop 1: invariant[pop] len(outer(stack)) >= 1 && curr == outer(stack[len(stack) - 1])
+//@   loop 1: invariant[rest] len(stack) == len(outer(stack)) - 1 + (NChildren(block) - 1 - i) && (forall k in [0, len(outer(stack)) - 1): stack[k] == outer(stack[k]))
+//@   loop 1: invariant[pushed] forall j in [0, NChildren(block) - 1 - i): stack[len(outer(stack)) - 1 + j].ptr == ChildPtr(block, NChildren(block) - 1 - j)
 //@   loop 1: decreases i + 1
 //@   nosafety index a link reference definition has a label and a destination child (node grammar, C05; assumption A-NODEINV)
 //@   nosafety nil the nodes of a parsed tree are never nil (assumption A-NODEINV, C05)
